@@ -25,7 +25,7 @@ pub fn generate(thorough: bool, seed: u64, em: &mut Emitter) {
             let mut paths: Vec<String> = marks.iter().map(gen::render).collect();
             let bad: Option<(String, usize)> = match kind {
                 "unknown_member" => Some(("/no_such_member".to_string(), r.below(paths.len() + 1))),
-                "no_leading_slash" => nodes.first().map(|p| (gen::render(p)[1..].to_string(), r.below(paths.len() + 1))).filter(|(s, _)| !s.is_empty()),
+                "no_leading_slash" => nodes.first().map(|p| (gen::render(p)[1..].to_string(), r.below(paths.len() + 1))).filter(|(s, _)| !s.is_empty() && !s.starts_with('/')), // "/" + "" + "/A" minus its first character is the valid pointer "//A"
                 "empty_path" => Some((String::new(), r.below(paths.len() + 1))),
                 "index_out_of_range" | "non_numeric_index" | "member_of_array" | "negative_index" | "index_overflow" => {
                     // needs an array that is still reachable (not inside a marked node) at the chosen position: put it first
